@@ -41,6 +41,14 @@ REGISTRY['C10'] = {
     'design_ref': 'DESIGN.md section 5 / C10',
     'not_covered': ['interleaving with RRDP file writes, session reset histories', 'publisher_rsync_base string construction'],
 }
+REGISTRY['C15'] = {
+    'v': ['c15_taproxy'],
+    'k': [],
+    'level_text': 'Proxy side on the real text: a signer response is accepted exactly when a request is open, the nonce equals it, a signer is associated and the response is genuine under that signer\'s ID key (iff); one open request at a time; validate of signed request/response = CMS valid AND clear text equals signed content (iff); apply sets/replaces the associated signer as a whole and removes a delivered child response. The signer\'s process_signer_request and the SignerResponseReceived apply arm iterate HashMaps by value and are not covered.',
+    'level_note': 'CMS validation, JSON decoding and PartialEq of payload types are assumed externals; mft_number_override assumed increasing (A7).',
+    'design_ref': 'DESIGN.md section 5 / C15',
+    'not_covered': ['TrustAnchorSigner::process_signer_request (by-value HashMap loop)', 'TrustAnchorProxy::apply arm SignerResponseReceived (by-value HashMap loops)', 'manifest/CRL numbers only increase across re-initialisation histories'],
+}
 REGISTRY['C16'] = {
     'v': [],
     'k': ['k_api_roa'],
